@@ -48,6 +48,7 @@ def main():
     rep = core.Report(a.prop, a.tier, a.seed, level_of(a.prop, mod))
     rep.assumptions += list(getattr(mod, "ASSUMPTIONS", []))
     rep.trusted += list(getattr(mod, "TRUSTED", []))
+    rep.partial = bool(a.no_e1 or a.no_bounded or a.group)
     if not a.no_e1:
         try:
             run_e1(rep, a.prop, mod, a.tier)
